@@ -1,4 +1,5 @@
 import ParryModel.C13.Lemmas4
+import ParryModel.C13.Lemmas5
 /-!
 # C13 theorems, part 3: `with_inertia_matrix` for EVERY orthonormal eigen-decomposition; full 3-D `+`; inverse tensors; `set_mass`
 
@@ -6,8 +7,8 @@ import ParryModel.C13.Lemmas4
 (`Model4.lean`) takes the eigen-solver as a parameter and transliterates everything that follows it; the theorems here hold
 for every solver whose answer `(d, V)` is an orthonormal eigen-decomposition of the input (`EigenDecomp`):
 `M V = V diag(d)` with `V` the rotation matrix of a unit quaternion or its mirror image (columns 1, 2 swapped — the two
-classes of orthogonal matrices; that every orthogonal matrix over a field with square roots has this form is classical and
-NOT proved here).  Consequence: the oracle's recomposition check `R diag(I) Rᵀ = M` IS the clause for `with_inertia_matrix`.
+classes of orthogonal matrices: `orthogonal_is_orthoFrame` + `orthonormal_columns_isOrthogonal` prove that every matrix with
+orthonormal columns has this form, so `with_inertia_matrix_recompose_orthogonal` has the natural hypothesis `Vᵀ V = 1`).  Consequence: the oracle's recomposition check `R diag(I) Rᵀ = M` IS the clause for `with_inertia_matrix`.
 -/
 namespace C13
 open Model Model.Mass
@@ -391,5 +392,63 @@ theorem sub3_raw_moments (a b : MP3 K) (m : K) (c : V3 K) (I : M3 K)
   refine ⟨trivial, by field_simp, by field_simp, by field_simp, ?_⟩
   congr 1 <;> congr 1 <;> (field_simp; ring)
 
+
+/-- orthogonal 3×3 matrix: orthonormal columns (`Vᵀ V = 1`) and determinant `±1` (the latter follows from the former by
+multiplicativity of the determinant; it is kept as part of the definition) -/
+def IsOrthogonal (V : M3 K) : Prop :=
+  @M3.mul K (fieldNum K sq) (mtr V) V = mone ∧ (@det3 K (fieldNum K sq) V = 1 ∨ @det3 K (fieldNum K sq) V = -1)
+
+/-- **every orthogonal matrix is an admissible eigenvector matrix** (`OrthoFrame`): over a field with square roots a
+matrix with orthonormal columns and determinant `1` is the rotation matrix of a unit quaternion (Shepperd's four
+candidates, `Lemmas5.lean`), and one with determinant `−1` is such a matrix with columns 1, 2 exchanged.  This closes the
+gap between `OrthoFrame` and "orthonormal eigenvectors". -/
+theorem orthogonal_is_orthoFrame (hs : LawfulSqrt sq) (V : M3 K) (h : IsOrthogonal sq V) : OrthoFrame sq V := by
+  obtain ⟨hc, hd | hd⟩ := h
+  · obtain ⟨q, hq, e⟩ := rot_exists_quat sq hs V hc hd
+    exact ⟨q, hq, Or.inl e.symm⟩
+  · have hc' : @M3.mul K (fieldNum K sq) (mtr (M3.swapCols12 V)) (M3.swapCols12 V) = mone := by
+      rcases V with ⟨⟨v00, v01, v02⟩, ⟨v10, v11, v12⟩, ⟨v20, v21, v22⟩⟩
+      simp only [M3.mul, mtr, mone, M3.swapCols12, M3.mk.injEq, V3.mk.injEq] at hc ⊢
+      obtain ⟨⟨h00, h01, h02⟩, ⟨h10, h11, h12⟩, ⟨h20, h21, h22⟩⟩ := hc
+      exact ⟨⟨h00, h02, h01⟩, ⟨h20, h22, h21⟩, ⟨h10, h12, h11⟩⟩
+    have hd' : @det3 K (fieldNum K sq) (M3.swapCols12 V) = 1 := by
+      rcases V with ⟨⟨v00, v01, v02⟩, ⟨v10, v11, v12⟩, ⟨v20, v21, v22⟩⟩
+      simp only [det3, M3.swapCols12] at hd ⊢
+      linear_combination (-1) * hd
+    obtain ⟨q, hq, e⟩ := rot_exists_quat sq hs _ hc' hd'
+    refine ⟨q, hq, Or.inr ?_⟩
+    rw [e, swap_swap]
+
+/-- **`with_inertia_matrix` recomposes the input tensor for every ORTHOGONAL eigenvector matrix** — the statement of
+`with_inertia_matrix_recompose` with the hypothesis in its natural form: `Vᵀ V = 1`, `det V = ±1`, `M V = V diag(d)`,
+`d ≥ 0`. -/
+theorem with_inertia_matrix_recompose_orthogonal (hs : LawfulSqrt sq) (com : V3 K) (mass : K) (M : M3 K) (d : V3 K) (V : M3 K)
+    (hO : IsOrthogonal sq V)
+    (hM : @M3.mul K (fieldNum K sq) M V = @M3.mul K (fieldNum K sq) V (@M3.diag K (fieldNum K sq) d))
+    (hx : 0 ≤ d.x) (hy : 0 ≤ d.y) (hz : 0 ≤ d.z) :
+    letI := fieldNum K sq
+    let p := MP3.withInertiaEigen com mass d V
+    p.reconstruct = M ∧ massOf3 p = mass ∧ p.com = com ∧ UnitQ p.frame ∧
+    (inertiaOf3 p = d ∨ inertiaOf3 p = ⟨d.x, d.z, d.y⟩) :=
+  with_inertia_matrix_recompose sq hs com mass M d V ⟨orthogonal_is_orthoFrame sq hs V hO, hM⟩ hx hy hz
+
+/-- non-vacuity: a genuinely oblique orthogonal matrix over `ℚ` (rotation by the `3-4-5` angle about `z`, mirrored) -/
+example : IsOrthogonal (fun x : ℚ => x) (⟨⟨3 / 5, 0, -4 / 5⟩, ⟨4 / 5, 0, 3 / 5⟩, ⟨0, 1, 0⟩⟩ : M3 ℚ) := by
+  refine ⟨?_, Or.inr ?_⟩
+  · simp only [M3.mul, mtr, mone]; norm_num
+  · simp only [det3]; norm_num
+
+/-- orthonormal columns alone make a matrix orthogonal: `det(Vᵀ V) = (det V)²`, hence `det V = ±1` -/
+theorem orthonormal_columns_isOrthogonal (V : M3 K) (hc : @M3.mul K (fieldNum K sq) (mtr V) V = mone) : IsOrthogonal sq V := by
+  refine ⟨hc, ?_⟩
+  have h : @det3 K (fieldNum K sq) (@M3.mul K (fieldNum K sq) (mtr V) V)
+      = @det3 K (fieldNum K sq) V * @det3 K (fieldNum K sq) V := by
+    rcases V with ⟨⟨v00, v01, v02⟩, ⟨v10, v11, v12⟩, ⟨v20, v21, v22⟩⟩
+    simp only [det3, M3.mul, mtr]
+    ring
+  rw [hc] at h
+  have h1 : @det3 K (fieldNum K sq) (mone : M3 K) = 1 := by simp [det3, mone]
+  rw [h1] at h
+  exact mul_self_eq_one_iff.1 h.symm
 
 end C13
